@@ -153,5 +153,126 @@ theorem processEvs_prefix (fwd : Bool) (xold x : K) (ip : Option (Interp K)) :
       · intro h'; simp [hb h']
       · simpa using hev
 
+/-- one unfolding of `popBeyond` with a non-empty sample list -/
+theorem popBeyond_succ_some (fwd : Bool) (te : K) (f : Nat) (s : St K) (l0 : K) (hb : s.t.back? = some l0) :
+    popBeyond fwd te (f + 1) s =
+      if (if fwd then decide (l0 > te) else decide (l0 < te)) = true ∧ s.nextIdx ≠ 0
+      then popBeyond fwd te f { s with t := s.t.pop, y := s.y.pop, nextIdx := s.nextIdx - 1 } else s := by
+  rw [popBeyond]; simp only [hb]
+theorem popBeyond_succ_none (fwd : Bool) (te : K) (f : Nat) (s : St K) (hb : s.t.back? = none) :
+    popBeyond fwd te (f + 1) s = s := by
+  rw [popBeyond]; simp only [hb]
+theorem size_ne_zero_of_back (s : St K) (l0 : K) (hb : s.t.back? = some l0) : s.t.size ≠ 0 := by
+  intro h0
+  have : s.t = #[] := Array.eq_empty_of_size_eq_zero h0
+  rw [this] at hb; simp at hb
+
+/-- **every early-reported sample beyond a terminal event is taken back**, not just one: after `popBeyond` (run with the fuel the
+    handler's `while let` has, more than the number of samples) the last remaining sample is not beyond the event — unless
+    `next_idx` is 0, i.e. no requested time has been consumed and what remains are not requested-time samples -/
+theorem popBeyond_last (fwd : Bool) (te : K) : ∀ (f : Nat) (s : St K), s.t.size < f → ∀ last,
+    (popBeyond fwd te f s).t.back? = some last →
+      ¬ ((if fwd then decide (last > te) else decide (last < te)) = true ∧ (popBeyond fwd te f s).nextIdx ≠ 0) := by
+  intro f
+  induction f with
+  | zero => intro s h; omega
+  | succ f ih =>
+    intro s hsz last
+    cases hb : s.t.back? with
+    | none => rw [popBeyond_succ_none fwd te f s hb]; intro h; rw [hb] at h; cases h
+    | some l0 =>
+      rw [popBeyond_succ_some fwd te f s l0 hb]
+      have hne := size_ne_zero_of_back s l0 hb
+      by_cases hc : (if fwd then decide (l0 > te) else decide (l0 < te)) = true ∧ s.nextIdx ≠ 0
+      · rw [if_pos hc]
+        exact ih _ (by simp only [Array.size_pop]; omega) last
+      · rw [if_neg hc]
+        intro hl
+        rw [hb] at hl
+        injection hl with hl
+        subst hl
+        exact hc
+
+/-- `popBeyond` only ever removes samples: what is left is an initial part of what was there, and `next_idx` goes down by the
+    number removed -/
+theorem popBeyond_prefix (fwd : Bool) (te : K) : ∀ (f : Nat) (s : St K),
+    (popBeyond fwd te f s).t.toList = s.t.toList.take (popBeyond fwd te f s).t.size
+      ∧ (popBeyond fwd te f s).t.size ≤ s.t.size
+      ∧ (popBeyond fwd te f s).nextIdx + (s.t.size - (popBeyond fwd te f s).t.size) = s.nextIdx := by
+  intro f
+  induction f with
+  | zero => intro s; simp [popBeyond]
+  | succ f ih =>
+    intro s
+    cases hb : s.t.back? with
+    | none => rw [popBeyond_succ_none fwd te f s hb]; simp
+    | some l0 =>
+      rw [popBeyond_succ_some fwd te f s l0 hb]
+      have hne := size_ne_zero_of_back s l0 hb
+      by_cases hc : (if fwd then decide (l0 > te) else decide (l0 < te)) = true ∧ s.nextIdx ≠ 0
+      · rw [if_pos hc]
+        obtain ⟨h1, h2, h3⟩ := ih { s with t := s.t.pop, y := s.y.pop, nextIdx := s.nextIdx - 1 }
+        simp only [Array.size_pop] at h2 h3
+        generalize popBeyond fwd te f { s with t := s.t.pop, y := s.y.pop, nextIdx := s.nextIdx - 1 } = r at h1 h2 h3 ⊢
+        refine ⟨?_, by omega, ?_⟩
+        · rw [h1]
+          simp only [Array.toList_pop, List.dropLast_eq_take, List.take_take, Array.length_toList]
+          congr 1
+          omega
+        · have := hc.2; omega
+      · rw [if_neg hc]; simp
+
+/-- the events of one step recorded in order -/
+def recAll (s : St K) (l : List (K × Nat × Array K)) : St K := l.foldl (fun (st : St K) e => recordEv st e.1 e.2.1 e.2.2) s
+
+/-- **the stop is at the first event that reaches its count**: of the (sorted) events of one step exactly the first `k` are recorded;
+    when the handler interrupts, the `k`-th is an event whose function has reached its terminal count once it is recorded, and no
+    earlier one had (in particular an occurrence of a counted terminal event that does not yet reach its count hides nothing that
+    follows it); when it does not interrupt, none of them has and all are recorded -/
+theorem processEvs_stops_at_first (fwd : Bool) (xold x : K) (ip : Option (Interp K)) :
+    ∀ (evs : List (K × Nat × Array K)) (s s' : St K) (b : Bool), processEvs fwd xold x ip s evs = (s', b) →
+      ∃ k, k ≤ evs.length ∧ s'.tEvents = (recAll s (evs.take k)).tEvents
+        ∧ (b = false → k = evs.length)
+        ∧ (b = true → 0 < k ∧ ∃ e, evs[k - 1]? = some e ∧ fires (recAll s (evs.take k)) e.2.1 = true)
+        ∧ (∀ j e, j < (if b then k - 1 else k) → evs[j]? = some e → fires (recAll s (evs.take (j + 1))) e.2.1 = false) := by
+  intro evs
+  induction evs with
+  | nil =>
+    intro s s' b h; simp [processEvs] at h
+    refine ⟨0, by simp, by rw [← h.1]; rfl, by simp, ?_, ?_⟩
+    · intro hb; rw [hb] at h; exact absurd h.2 (by simp)
+    · intro j e hj; cases b <;> simp at hj
+  | cons e rest ih =>
+    intro s s' b h
+    obtain ⟨te, i, ye⟩ := e
+    unfold processEvs at h
+    split at h
+    · rename_i hf
+      injection h with h1 h2
+      subst h2
+      refine ⟨1, by simp, ?_, by simp, ?_, ?_⟩
+      · rw [← h1]; simp [terminalSamples_tEvents, recAll]
+      · intro _; exact ⟨by omega, (te, i, ye), by simp, by simpa [recAll] using hf⟩
+      · intro j e hj; simp at hj
+    · rename_i hf
+      obtain ⟨k, hk, hev, hb, hfire, hnone⟩ := ih _ _ _ h
+      refine ⟨k + 1, by simp only [List.length_cons]; omega, by simpa [recAll] using hev, ?_, ?_, ?_⟩
+      · intro h'; simp [hb h']
+      · intro h'
+        obtain ⟨hk0, e, he, hfe⟩ := hfire h'
+        refine ⟨by omega, e, ?_, by simpa [recAll] using hfe⟩
+        have : k + 1 - 1 = (k - 1) + 1 := by omega
+        rw [this]; simpa using he
+      · intro j e hj he
+        cases j with
+        | zero =>
+          simp at he; subst he
+          simpa [recAll] using hf
+        | succ j =>
+          have hj' : j < (if b then k - 1 else k) := by
+            cases b <;> simp at hj ⊢ <;> omega
+          have := hnone j e hj' (by simpa using he)
+          simpa [recAll] using this
+
 end
 end SolOutM
